@@ -216,6 +216,29 @@ reg("C16", "exploration",
     "of the terms after expansion, since the solver splits (k+1)*b into k*b and b.",
     "DESIGN.md 3/C16")
 
+reg("C17", "exploration",
+    "bounded-exhaustive enumeration of canonical expression trees plus all documented catalogue "
+    "equations in source form, judged by an own precedence parser and value comparison",
+    "Every auto-evaluated tree with at most n internal nodes over the printer-relevant alphabet, "
+    "and each of the ~620 documented equations obtained exactly as the documentation obtains them "
+    "(patch + exec with evaluation disabled), is rendered by code_str; the text is parsed under "
+    "ordinary precedence with ^ for powers and function-call syntax and evaluated at lattice points "
+    "(40 digits, complex) against the original.",
+    "Trees beyond the bound by the small-scope hypothesis (bracketing decisions depend on the "
+    "parent/child node types only); catalogue equations with derivatives / integrals / sums / "
+    "matrices are structure-checked only.", "DESIGN.md 3/C17")
+
+reg("C18", "exploration",
+    "same enumeration as C17, judged by a brace/delimiter automaton and an own LaTeX reader that "
+    "evaluates all conventional readings",
+    "Every rendering by latex_str must pass the well-formedness automaton (braces, \\left/\\right, "
+    "begin/end, empty \\frac, dangling ^ _); renderings within the reader's grammar (fractions, "
+    "roots, powers, juxtaposition, signs, delimiters, elementary functions, \\log_b) are evaluated "
+    "and compared by value with the original; a violation is reported only if no conventional "
+    "reading has the original's value.",
+    "Unreadable renderings are undecided and listed; catalogue equations with derivatives, "
+    "integrals, sums, matrices, wrappers are well-formedness-checked only.", "DESIGN.md 3/C18")
+
 
 def build() -> dict:
     props = [json.loads(l)["id"] for l in open(os.path.join(ROOT, "properties.jsonl"))]
